@@ -2,6 +2,7 @@ package main
 
 import (
 	"fmt"
+	"sort"
 	"strings"
 	"time"
 
@@ -47,7 +48,16 @@ func sigKinds() []sigKind {
 	}
 }
 
+// busyLive: the number of live events of the busy-second scenario - all emitted within one (virtual) second, so
+// that the offsets (yeast ids: a second and a counter within it, in an alphabet that is NOT in lexicographic
+// order: ...y z - _ 10 11...) run past the 64th id of their second
+const busyLive = 70
+
 func runClientScenario(name string) ([]finding, string) {
+	if name == "busy-second" {
+		fs, herr, _ := runClientCaseN(sigKinds()[0], busyLive)
+		return fs, herr
+	}
 	for _, k := range sigKinds() {
 		if k.name == name {
 			fs, herr, _ := runClientCase(k)
@@ -57,9 +67,28 @@ func runClientScenario(name string) ([]finding, string) {
 	return nil, "no such client scenario: " + name
 }
 
-func runClientCase(k sigKind) (fs []finding, herr string, steps int) {
+func runClientCase(k sigKind) (fs []finding, herr string, steps int) { return runClientCaseN(k, 2) }
+
+// runClientCaseN: nLive events while connected (2: half a second apart; more: all at one instant), 2 while the link
+// is down, 1 after the recovery.
+func runClientCaseN(k sigKind, nLive int) (fs []finding, herr string, steps int) {
 	add := func(key, format string, a ...any) {
-		fs = append(fs, finding{key, "handler " + k.name + ": " + fmt.Sprintf(format, a...)})
+		pre := "handler " + k.name
+		if nLive != 2 {
+			pre += fmt.Sprintf(", %d live events within one second", nLive)
+		}
+		fs = append(fs, finding{key, pre + ": " + fmt.Sprintf(format, a...)})
+	}
+	same := func(got []string, want string) bool {
+		if nLive == 2 {
+			return strings.Join(got, " | ") == want
+		}
+		// (per-packet dispatch goroutines: the order at handler entry is C02's known finding) exactly once each
+		g := append([]string{}, got...)
+		w := strings.Split(want, " | ")
+		sort.Strings(g)
+		sort.Strings(w)
+		return strings.Join(g, " | ") == strings.Join(w, " | ")
 	}
 	e := vsched.Run(vsched.Options{Horizon: 3 * time.Minute}, func(e *vsched.Exec) {
 		scfg := &sio.ServerConfig{ServerConnectionStateRecovery: sio.ServerConnectionStateRecovery{Enabled: true, MaxDisconnectionDuration: window}}
@@ -115,17 +144,23 @@ func runClientCase(k sigKind) (fs []finding, herr string, steps int) {
 			return strings.Join(w, " | ")
 		}
 		vsched.Sleep(time.Second)
-		ssocks[0].Emit("ev", k.args(1)...)
+		if nLive == 2 {
+			ssocks[0].Emit("ev", k.args(1)...)
+			vsched.Sleep(500 * time.Millisecond)
+			nsp.Emit("ev", k.args(2)...)
+		} else {
+			for i := 1; i <= nLive; i++ {
+				nsp.Emit("ev", k.args(i)...)
+			}
+		}
 		vsched.Sleep(500 * time.Millisecond)
-		nsp.Emit("ev", k.args(2)...)
-		vsched.Sleep(500 * time.Millisecond)
-		liveOK := strings.Join(got, " | ") == want(2)
+		liveOK := same(got, want(nLive))
 		if !liveOK {
 			key := "client: event not delivered intact on a recovery-enabled connection"
 			if k.lastString {
 				key = "client: last string argument eaten as offset"
 			}
-			add(key, "the server emitted 2 events with arguments %v and %v (+ the offset it appends); the handler recorded [%s], expected [%s]; manager errors %v", k.args(1), k.args(2), strings.Join(got, " | "), want(2), errs)
+			add(key, "the server emitted %d events with arguments %v, %v ... (+ the offset it appends); the handler recorded [%s], expected [%s]; manager errors %v", nLive, k.args(1), k.args(2), strings.Join(got, " | "), want(nLive), errs)
 		}
 		// the link goes down; both sides notice (heartbeat)
 		tDown := e.Clock()
@@ -139,9 +174,9 @@ func runClientCase(k sigKind) (fs []finding, herr string, steps int) {
 			herr = fmt.Sprintf("the server persisted %d sessions after the cut", len(pids))
 			return
 		}
-		nsp.To(sio.Room(ids[0])).Emit("ev", k.args(3)...)
+		nsp.To(sio.Room(ids[0])).Emit("ev", k.args(nLive+1)...)
 		vsched.Sleep(500 * time.Millisecond)
-		nsp.Emit("ev", k.args(4)...)
+		nsp.Emit("ev", k.args(nLive+2)...)
 		vsched.Sleep(500 * time.Millisecond)
 		postsBefore := 0
 		link.V.Do(func() { link.Down = false; postsBefore = len(link.Posts) })
@@ -183,14 +218,14 @@ func runClientCase(k sigKind) (fs []finding, herr string, steps int) {
 				tUp-tDown, window, recoveredAt[1], ids[0], ids[1], srecovered[1], presented, strings.Join(got, " | "), errs)
 			return
 		}
-		ssocks[1].Emit("ev", k.args(5)...)
+		ssocks[1].Emit("ev", k.args(nLive+3)...)
 		vsched.Sleep(time.Second)
-		if strings.Join(got, " | ") != want(5) && liveOK {
+		if !same(got, want(nLive+3)) && liveOK {
 			key := "client: recovered, but the events were not delivered exactly once, in order and intact"
 			if strings.Contains(k.name, "Binary") {
 				key = "client: recovered, but binary events were not delivered exactly once, in order and intact"
 			}
-			add(key, "the handler recorded [%s], expected [%s] (events 3 and 4 were emitted while the link was down); manager errors %v", strings.Join(got, " | "), want(5), errs)
+			add(key, "the handler recorded [%s], expected [%s] (events %d and %d were emitted while the link was down); manager errors %v", strings.Join(got, " | "), want(nLive+3), nLive+1, nLive+2, errs)
 		}
 	})
 	steps = e.Steps
@@ -230,6 +265,30 @@ func clientWorker(tier string, deadline time.Time) *workerOut {
 				o.Found[f.Key] = a
 			}
 			a.Count++
+		}
+	}
+	{
+		fs, herr, steps := runClientCaseN(sigKinds()[0], busyLive)
+		o.Cases++
+		o.Execs++
+		o.Steps += steps
+		o.Nontrivial++
+		if herr != "" {
+			o.harnessErr("busy second: " + herr)
+		} else {
+			out := "ok"
+			if len(fs) > 0 {
+				out = "violation"
+			}
+			o.ByClass["must/"+out]++
+			for _, f := range fs {
+				a := o.Found[f.Key]
+				if a == nil {
+					a = &keyAgg{Msg: f.Msg, Replay: map[string]any{"part": "client", "scenario": "busy-second"}}
+					o.Found[f.Key] = a
+				}
+				a.Count++
+			}
 		}
 	}
 	o.Samples = append(o.Samples, map[string]any{"part": "client", "scenario": "handler func(int): 2 live events, link down until both sides noticed, 2 events while away, link up, reconnection, 1 more event"})
